@@ -71,6 +71,11 @@ def config(rs, run, tier):
             items.append(["import", relhref(u, urls[j]), r.choice(EDGE_MEDIA), urls[j]])
         if r.random() < 0.2:
             items.append(["import", f"missing{i}.css", r.choice(EDGE_MEDIA), None])
+        # a licence comment or (root only) an unknown at-rule in front of or between the @import rules
+        if r.random() < 0.3:
+            items.insert(r.randrange(0, len(items) + 1), ["comment", f"licence {i}"])
+        if i == 0 and r.random() < 0.2:
+            items.insert(r.randrange(0, len(items) + 1), ["unknown", f"@x-meta v{i};"])
         if r.random() < 0.12:
             items.append(["namespace", f"n{i}", f"urn:{i}"])
         for _ in range(r.choice([0, 1, 1, 2, 3])):
@@ -101,6 +106,10 @@ def render(sheet):
             out.append(f'@import url("{it[1]}"){m};')
         elif k == "namespace":
             out.append(f'@namespace {it[1]} "{it[2]}";')
+        elif k == "comment":
+            out.append(f"/* {it[1]} */")
+        elif k == "unknown":
+            out.append(it[1])
         elif k == "style":
             decl = "; ".join([f"background: url({u})" if i == 0 else f"list-style-image: url('{u}')" for i, u in enumerate(it[2])] or ["left: 0"])
             out.append(f"{it[1]} {{ {decl} }}")
